@@ -13,6 +13,7 @@ import (
 	"context"
 	"fmt"
 	"github.com/TarsCloud/TarsGo/tars"
+	"github.com/TarsCloud/TarsGo/tars/util/current"
 	"math/rand"
 	"sort"
 	"strings"
@@ -452,6 +453,45 @@ func cutScenario() {
 	}
 }
 
+// zeroTimeoutScenario: "its own response or else a timeout error" also when the effective timeout
+// is 0 (TarsSetTimeout(0), a per-call timeout of 0): against a peer that never answers, or answers
+// under an id nobody waits for, the call returns a timeout error — it does not wait for ever.
+func zeroTimeoutScenario() {
+	for _, mode := range []string{"silent", "foreign-id"} {
+		srv := netlab.NewScriptServer(func(ev *netlab.ReqEvent) {
+			if ev.Err == nil && mode == "foreign-id" {
+				_ = ev.Conn.Send((&netlab.Response{Version: ev.Req.Version, RequestID: ev.Req.RequestID + 100000, Buffer: []byte("for-nobody")}).Encode())
+			}
+		})
+		for _, how := range []string{"proxy-timeout-0", "per-call-timeout-0"} {
+			cl := rpcw.NewDirect([]string{srv.Addr}, rpcw.Opt{InvokeTimeoutMs: 2000})
+			ctx := context.Background()
+			if how == "proxy-timeout-0" {
+				cl.SP.TarsSetTimeout(0)
+			} else {
+				ctx = current.ContextWithClientCurrent(ctx)
+				current.SetClientTimeout(ctx, 0)
+			}
+			done := make(chan error, 1)
+			go func() {
+				_, _, err := cl.Call(ctx, "echo", []byte("zero-"+mode+"-"+how), false)
+				done <- err
+			}()
+			run.Eval(1)
+			select {
+			case err := <-done:
+				if err == nil {
+					run.Violation("foreign-response-delivered", "timeout-0:"+mode, fmt.Sprintf("a call with an effective timeout of 0 (%s) against a %s peer returned success", how, mode), map[string]interface{}{"how": how, "peer": mode})
+				}
+			case <-time.After(8 * time.Second):
+				run.Violation("neither-response-nor-timeout", "timeout-0:"+mode, fmt.Sprintf("a call with an effective timeout of 0 (%s) against a %s peer had neither returned its response nor a timeout error after 8 s", how, mode), map[string]interface{}{"how": how, "peer": mode})
+			}
+			run.Distinct("zero-timeout|" + mode + "|" + how)
+		}
+		srv.Stop()
+	}
+}
+
 // idDrawStress draws request ids directly (hook VerifGenRequestID = the real genRequestID) from
 // several goroutines released together while the counter crosses MaxInt32: callers that draw at
 // the same time are concurrently outstanding, so within one round every id must be non-zero and
@@ -609,6 +649,7 @@ func main() {
 		runBatch(scripts[2], 32, 8, 1, 3000, seed, 2147483647-k)
 	}
 	cutScenario()
+	zeroTimeoutScenario()
 	if haveMsgIDHook {
 		idDrawStress()
 	}
